@@ -193,6 +193,7 @@ func (e *dbhistEngine) Gen(seed uint64, tier string, run int) *Trace {
 				op.Lists = append(op.Lists, genListSpec(r, types, nown, false))
 			}
 		case "Restart":
+			op.D = r.Intn(2)
 		default:
 			op.T, op.D = pickTD()
 			op.O = r.Intn(nown)
@@ -832,7 +833,21 @@ func (e *dbhistEngine) Exec(tr *Trace, x *X) {
 				}
 			case "Restart":
 				enc := db.Bytes()
-				got, err := signature.ReadSignatureDatabase(bytes.NewReader(enc))
+				// decode from a buffer the caller owns and goes on to reuse (Unmarshal's signature asks for one)
+				cbuf := bytes.NewBuffer(append([]byte(nil), enc...))
+				backing := cbuf.Bytes()
+				var got signature.SignatureDatabase
+				var err error
+				if op.D%2 == 0 {
+					got, err = signature.ReadSignatureDatabase(cbuf)
+				} else {
+					err = got.Unmarshal(cbuf)
+				}
+				for k := range backing {
+					backing[k] = 0xEE
+				}
+				cbuf.Reset()
+				cbuf.WriteString("the caller reuses its buffer")
 				allSupported := true
 				for _, l := range *db {
 					k := "unknown"
